@@ -360,7 +360,7 @@ pub fn pool_strategy() -> BoxedStrategy<Vec<u64>> {
     // small numbers and the limits dominate (collisions are the point); the rest of the number line
     // (two-digit values, powers of two and their neighbours, uniform u64 <= MAX) takes part too
     let mid = select(vec![4u64, 5, 7, 9, 12, 20, 42, 64, 99, 100, 127, 128, 255, 256, 1000, 65535, 65536, (1 << 31) - 1, 1 << 31, 1 << 32, (1 << 32) + 1, 1 << 53, (1 << 53) + 1]);
-    let extra = prop_oneof![3 => mid.boxed(), 1 => (0..=m).boxed(), 1 => (0..200u64).boxed(), 2 => crate::gen::version::log_uniform(), 1 => crate::gen::version::bit_boundary()];
+    let extra = prop_oneof![3 => mid.boxed(), 1 => (0..=m).boxed(), 1 => (0..200u64).boxed(), 2 => crate::gen::version::log_uniform(), 1 => crate::gen::version::bit_boundary(), 1 => crate::gen::version::decimal_structured()];
     (proptest::sample::subsequence(vec![0u64, 1, 2, 3, 10, 11, m - 1, m], 2..=3).prop_shuffle(), proptest::collection::vec(extra, 0..=2), 0u8..4)
         .prop_map(|(mut base, extra, k)| {
             // one case in four mixes in one or two numbers from the wider pool, possibly with neighbours
